@@ -257,7 +257,8 @@ type side struct {
 	wrPk, wrBy, rdPk, rdBy int
 	cbMu                   sync.Mutex
 	cbCon                  []string
-	failedSawSel           bool // a Failed notification ran while GetSelectedCandidatePair still returned a pair
+	pause                  chan struct{} // non-nil: the application's reader does not call Read until it is closed
+	failedSawSel           bool          // a Failed notification ran while GetSelectedCandidatePair still returned a pair
 	cbSel                  [][2]string
 	cbCnd                  []string
 }
@@ -549,6 +550,12 @@ func runSession(t *testing.T, cfg *sessCfg, job *sessJob, rng *mrand.Rand, sched
 		go func() { // the application's reader
 			buf := make([]byte, 9000)
 			for {
+				sd.cbMu.Lock()
+				hold := sd.pause
+				sd.cbMu.Unlock()
+				if hold != nil { // the application has stopped reading: what arrives now stays in the agent's receive buffer
+					<-hold
+				}
 				k, rerr := sd.conn.Read(buf)
 				if rerr != nil {
 					return
@@ -717,6 +724,7 @@ func runSession(t *testing.T, cfg *sessCfg, job *sessJob, rng *mrand.Rand, sched
 			rds := S[n].reads
 			S[n].reads = nil
 			fss := S[n].failedSawSel
+			paused := S[n].pause != nil
 			S[n].cbMu.Unlock()
 			if rds == nil {
 				rds = []dread{}
@@ -738,7 +746,7 @@ func runSession(t *testing.T, cfg *sessCfg, job *sessJob, rng *mrand.Rand, sched
 			res[n] = map[string]any{
 				"role": s.Role, "conn": s.Conn, "locals": locs, "remotes": rems, "pairs": prs, "pend": pend, "sel": s.Sel, "selListed": s.SelListed, "tcpActive": tcpActive,
 				"nomPair": s.NomPair, "gen": S[n].gen, "rgen": S[n].rgen, "rx": rxs, "lastNom": s.LastNom, "gath": s.Gath,
-				"cbConn": con, "cbSel": sel, "cbCand": cnd, "failedSawSel": fss,
+				"cbConn": con, "cbSel": sel, "cbCand": cnd, "failedSawSel": fss, "paused": paused,
 				"rd": rds, "bsent": bs, "brecv": br, "selCnt": selCnt, "tally": []int{S[n].wrPk, S[n].wrBy, S[n].rdPk, S[n].rdBy},
 			}
 		}
@@ -1030,6 +1038,18 @@ func runSession(t *testing.T, cfg *sessCfg, job *sessJob, rng *mrand.Rand, sched
 				S[c.ag].wrBy += k
 			}
 			dataOps++
+		case "PauseRead":
+			rec["ag"] = c.ag
+			S[c.ag].cbMu.Lock()
+			S[c.ag].pause = make(chan struct{})
+			S[c.ag].cbMu.Unlock()
+		case "ResumeRead":
+			rec["ag"] = c.ag
+			S[c.ag].cbMu.Lock()
+			ch := S[c.ag].pause
+			S[c.ag].pause = nil
+			S[c.ag].cbMu.Unlock()
+			close(ch)
 		case "DeliverData":
 			d := dflight[c.i]
 			dflight = append(dflight[:c.i:c.i], dflight[c.i+1:]...)
@@ -1314,6 +1334,19 @@ func runSession(t *testing.T, cfg *sessCfg, job *sessJob, rng *mrand.Rand, sched
 
 				continue
 			}
+			if c.ev == "Burst" { // macro: n writes of len bytes by ag, each delivered at once
+				n, _ := a["n"].(float64)
+				ln, _ := a["len"].(float64)
+				ag, _ := a["ag"].(string)
+				for r := 0; r < int(n); r++ {
+					do(act{ev: "Write", ag: ag, i: int(ln)})
+					for len(dflight) > 0 {
+						do(act{ev: "DeliverData", i: 0})
+					}
+				}
+
+				continue
+			}
 			if c.ev == "Rounds" { // macro: n rounds of tick A, tick B, deliver all
 				n, _ := a["n"].(float64)
 				for r := 0; r < int(n); r++ {
@@ -1397,6 +1430,11 @@ func runSession(t *testing.T, cfg *sessCfg, job *sessJob, rng *mrand.Rand, sched
 				skip = !gathNew[c.ag]
 			case "Start":
 				skip = started[c.ag]
+			case "PauseRead":
+				sn := S[c.ag].ag.VerifSnapshot()
+				skip = S[c.ag].pause != nil || S[c.ag].conn == nil || (sn.Conn != "Checking" && sn.Conn != "Connected" && sn.Conn != "Disconnected")
+			case "ResumeRead":
+				skip = S[c.ag].pause == nil
 			case "AddRemote":
 				if cc, ok := a["c"].(map[string]any); ok {
 					c.i = -1
@@ -1470,6 +1508,14 @@ func runSession(t *testing.T, cfg *sessCfg, job *sessJob, rng *mrand.Rand, sched
 		if pa["conn"] == "Connected" && pb["conn"] == "Connected" {
 			stats.Connected++
 		}
+	}
+	for _, n := range []string{"A", "B"} { // a reader still paused at the end of the schedule is let go
+		S[n].cbMu.Lock()
+		if S[n].pause != nil {
+			close(S[n].pause)
+			S[n].pause = nil
+		}
+		S[n].cbMu.Unlock()
 	}
 	_ = S["A"].ag.Close()
 	_ = S["B"].ag.Close()
